@@ -322,3 +322,11 @@ def unmap_some(rsmi, rng):
         return None
     drop = set(rng.sample(ms, rng.randint(1, max(1, len(ms) // 3))))
     return _MAP.sub(lambda m: "]" if int(m.group(1)) in drop else m.group(0), rsmi)
+
+
+def renumber_big(rsmi, rng):
+    """renumbering into three- and four-digit map numbers"""
+    ms = R.map_numbers(rsmi)
+    new = rng.sample(range(100, 2500), len(ms))
+    table = dict(zip(ms, new))
+    return _MAP.sub(lambda m: ":%d]" % table[int(m.group(1))], rsmi)
